@@ -464,3 +464,36 @@ def lshift_spec(self, other):
     """C02: << appends (rows); existing elements untouched, every appended value lands."""
     app = appended_values(other)
     return vec(list(self._underlying) + list(app), concat_dtype_spec(self._dtype, app), None, False)
+
+
+# ------------------------------------------------------------------ C08 promotion on assignment
+def can_promote(a, b):
+    """Documented widenings only: bool -> int -> float -> complex, date -> datetime."""
+    if a in NUM and b in NUM:
+        return num_rank(a) < num_rank(b)
+    return a is date and b is datetime
+
+
+def convert_value(kind, x):
+    """Existing elements are converted when a column is promoted (None stays None)."""
+    if x is None:
+        return None
+    if kind is datetime:
+        return datetime.combine(x, datetime.min.time())
+    return kind(x)
+
+
+def ladder_step(st, v):
+    """One new value against the running target kind: (kind, failed)."""
+    kind, failed = st
+    if failed or v is None:
+        return (kind, failed)
+    if belongs(type(v), kind):
+        return (kind, failed)
+    if can_promote(kind, type(v)):
+        return (type(v), False)
+    return (kind, True)
+
+
+def ladder_state(kind, values, k):
+    return fold(ladder_step, (kind, False), values, k)
